@@ -384,10 +384,188 @@ fn all_oplog_scenarios() -> Vec<String> {
     out
 }
 
+
+// ------------------------------------------------------------------ family: session (commands through process_request)
+use nundb::process_request::process_request;
+
+struct World { dbs: Arc<Databases> }
+fn run_cmd(w: &World, c: &mut Client, rx: &mut Receiver<String>, cmd: &str) -> (Response, Vec<String>) {
+    let r = process_request(cmd, &w.dbs, c);
+    (r, drain(rx))
+}
+/// db "d" (token "tok"), keys secret=42 public1=p1 sea=7, `$$secret` (variant dependent), users usr (list "r sec*|w pub*") and nolist
+fn mk_world(variant: u8) -> World {
+    let dbs = mk_dbs();
+    let (mut admin, mut arx) = Client::new_empty_and_receiver();
+    let w = World { dbs };
+    for c in ["auth u p", "create-db d tok", "use-db d tok", "set secret 42", "set public1 p1", "set sea 7",
+              "create-user usr ut", "create-user nolist nt", "set-permissions usr r sec*|w pub*"] {
+        run_cmd(&w, &mut admin, &mut arx, c);
+    }
+    run_cmd(&w, &mut admin, &mut arx, if variant == 0 { "set $$secret S3CR3T-A" } else { "set $$secret S3CR3T-B-longer" });
+    if variant == 1 { run_cmd(&w, &mut admin, &mut arx, "set $$extra XTRA"); }
+    std::mem::forget(arx);
+    w
+}
+fn secure_dump(w: &World) -> Vec<(String, String, i32)> {
+    let m = w.dbs.map.read().unwrap();
+    let db = m.get("d").unwrap();
+    let mut v: Vec<(String, String, i32)> = db.map.read().unwrap().iter().filter(|(k, _)| k.starts_with("$$")).map(|(k, e)| (k.clone(), e.value.clone(), e.version)).collect();
+    v.sort();
+    v
+}
+fn is_err(r: &Response) -> bool { matches!(r, Response::Error { .. }) }
+
+const LOGIN: [&str; 4] = ["", "use-db d tok", "use-db d usr ut", "use-db d nolist nt"];
+const DATA_CMDS: [&str; 22] = ["get secret", "get-safe secret", "get public1", "set secret x", "set public1 y", "set-safe public1 0 z", "increment sea 1", "remove public1", "remove secret",
+    "watch secret", "keys", "keys *", "keys $*", "keys $$*", "keys *$$", "keys sec*", "keys *1",
+    "get $$secret", "set $$secret hacked", "remove $$token", "increment $$secret 1", "watch $$secret"];
+const ADMIN_CMDS: [&str; 9] = ["create-db x xt", "create-user eve et", "set-permissions usr rwix *", "snapshot false d", "cluster-state", "metrics-state",
+    "replicate d secret -1 replaced", "replicate-remove d secret", "debug list-dbs"];
+const USE_FAIL: [&str; 4] = ["use-db d wrong", "use-db d usr wrong", "use-db nosuch tok", "use-db d nolist wrong"];
+
+fn ref_allowed(login: &str, key: &str, kind: char) -> bool {
+    if key.starts_with("$$") { return false; }
+    match login {
+        "use-db d tok" => true,
+        "use-db d usr ut" => match kind { 'r' => key.starts_with("sec"), 'w' => key.starts_with("pub"), _ => false },
+        _ => false,
+    }
+}
+fn ref_keys(pattern: &str, all: &[&str]) -> Vec<String> {
+    let mut v: Vec<String> = all.iter().filter(|k| !k.starts_with("$$")).filter(|k| {
+        if pattern.ends_with('*') { k.starts_with(&pattern.replace("*", "")) } else if pattern.starts_with('*') { k.ends_with(&pattern.replace("*", "")) } else { k.contains(pattern) }
+    }).map(|k| k.to_string()).collect();
+    v.sort();
+    v
+}
+
+fn scenario_session(sc: &str) -> Result<Violations, String> {
+    // sc = "<login idx>|<cmd a>;<cmd b>"  (commands taken literally)
+    let p: Vec<&str> = sc.splitn(2, '|').collect();
+    let login = LOGIN[p[0].parse::<usize>().map_err(|_| "bad login")?];
+    let cmds: Vec<&str> = p[1].split(';').filter(|c| !c.is_empty()).collect();
+    let mut v: Violations = vec![];
+    let mut transcripts: Vec<Vec<String>> = vec![];
+    for variant in 0..2u8 {
+        let w = mk_world(variant);
+        let before = secure_dump(&w);
+        let dbs_before: Vec<String> = { let m = w.dbs.map.read().unwrap(); let mut x: Vec<String> = m.keys().cloned().collect(); x.sort(); x };
+        let (mut c, mut rx) = Client::new_empty_and_receiver();
+        let mut tr: Vec<String> = vec![];
+        if !login.is_empty() { run_cmd(&w, &mut c, &mut rx, login); }
+        for cmd in &cmds {
+            let sel_before = (c.selected_db_name(), c.selected_db_user_name());
+            let out = catch_unwind(AssertUnwindSafe(|| run_cmd(&w, &mut c, &mut rx, cmd)));
+            let (r, msgs) = match out { Ok(x) => x, Err(_) => { v.push("C10.safety".into()); return Ok(v); } };
+            tr.push(format!("{:?} {:?}", r, msgs));
+            let word = cmd.split(' ').next().unwrap_or("");
+            let key = cmd.split(' ').nth(1).unwrap_or("");
+            // ---- C08: secure keys
+            if key.starts_with("$$") && ["get", "get-safe", "set", "set-safe", "increment", "remove", "watch"].contains(&word) {
+                chk(&mut v, "C08.secure-guard", is_err(&r)); chk(&mut v, "C08.secure-refusal", is_err(&r));
+            }
+            let leaked = format!("{:?}{:?}", r, msgs);
+            chk(&mut v, "C08.secure-guard", !leaked.contains("S3CR3T"));
+            if word == "keys" { chk(&mut v, "C08.listing-hides-secure", !leaked.contains("$$")); }
+            // ---- C09: admin commands need authentication
+            if ADMIN_CMDS.contains(cmd) {
+                chk(&mut v, "C09.auth-gate", is_err(&r)); chk(&mut v, "C09.auth-refusal", is_err(&r));
+            }
+            // ---- C09: data commands need a selected database; permissions
+            if DATA_CMDS.contains(cmd) && !key.starts_with("$$") {
+                if login.is_empty() { chk(&mut v, "C09.needs-selected-db", is_err(&r)); }
+                let kind = match word { "get" | "get-safe" | "watch" => Some('r'), "set" | "set-safe" => Some('w'), "increment" => Some('i'), "remove" => Some('x'), _ => None };
+                if let Some(k) = kind {
+                    if !login.is_empty() && c.selected_db_name().is_some() {
+                        let allowed = ref_allowed(login, key, k);
+                        if !allowed { chk(&mut v, "C09.permission-gate", is_err(&r)); chk(&mut v, "C09.no-list", is_err(&r)); chk(&mut v, "C09.list-decides", is_err(&r)); }
+                        else { chk(&mut v, "C09.list-decides", !is_err(&r)); chk(&mut v, "C09.token-session-default", !is_err(&r)); }
+                    }
+                }
+            }
+            // ---- C09: a failed use-db leaves the previous selection untouched
+            if USE_FAIL.contains(cmd) {
+                chk(&mut v, "C09.failed-use-db", is_err(&r) && (c.selected_db_name(), c.selected_db_user_name()) == sel_before);
+            }
+            // ---- C01: keys lists exactly the live keys matching the pattern, sorted, hiding $$ keys
+            if word == "keys" && !login.is_empty() && !is_err(&r) {
+                if let Response::Value { value, .. } = &r {
+                    let m = w.dbs.map.read().unwrap(); let db = m.get("d").unwrap();
+                    let live: Vec<String> = db.map.read().unwrap().iter().filter(|(_, e)| e.state != ValueStatus::Deleted).map(|(k, _)| k.clone()).collect();
+                    let live_ref: Vec<&str> = live.iter().map(|x| x.as_str()).collect();
+                    let want = ref_keys(key, &live_ref);
+                    let got: Vec<String> = value.split(',').filter(|x| !x.is_empty()).map(|x| x.to_string()).collect();
+                    chk(&mut v, "C01.keys-listing", got == want);
+                }
+            }
+        }
+        // ---- C08: $$ keys are unchanged by a non-admin session; C09: admin state unchanged
+        chk(&mut v, "C08.secure-unchanged", secure_dump(&w) == before);
+        let dbs_after: Vec<String> = { let m = w.dbs.map.read().unwrap(); let mut x: Vec<String> = m.keys().cloned().collect(); x.sort(); x };
+        chk(&mut v, "C09.auth-gate", dbs_after == dbs_before);
+        transcripts.push(tr);
+    }
+    // ---- C08: replies identical whatever administrators stored under $$ keys
+    chk(&mut v, "C08.noninterference", transcripts[0] == transcripts[1]);
+    Ok(v)
+}
+fn all_session_scenarios() -> Vec<String> {
+    let mut out = vec![];
+    for l in 0..LOGIN.len() {
+        for a in DATA_CMDS.iter().chain(ADMIN_CMDS.iter()) { out.push(format!("{}|{}", l, a)); }
+        for f in USE_FAIL { for a in ["get secret", "get public1", "set secret x", "keys", "remove sea"] { out.push(format!("{}|{};{}", l, f, a)); } }
+        for a in ["set public1 y", "remove public1", "remove secret", "increment sea 1"] { for b in ["keys", "keys *", "get public1", "get secret", "keys pub*"] { out.push(format!("{}|{};{}", l, a, b)); } }
+    }
+    out
+}
+
+// ------------------------------------------------------------------ family: arbiter queue (C13 multi-step)
+fn scenario_arbiter(sc: &str) -> Result<Violations, String> {
+    // sc = "<number of conflicting writes 1..3>|<resolution order as digits, e.g. 021>"
+    let p: Vec<&str> = sc.split('|').collect();
+    let nconf: usize = p[0].parse().map_err(|_| "bad")?;
+    let order: Vec<usize> = p[1].chars().map(|c| c.to_digit(10).unwrap() as usize).collect();
+    let dbs = mk_dbs();
+    let (db, _rx) = mk_db(ConsensuStrategy::Arbiter, None);
+    let (arb, mut arx) = Client::new_empty_and_receiver();
+    db.register_arbiter(&arb);
+    let mut v: Violations = vec![];
+    set_key_value("k".into(), "v0".into(), -1, &db, &dbs);
+    set_key_value("k".into(), "v1".into(), -1, &db, &dbs);
+    for i in 0..nconf { let r = set_key_value("k".into(), format!("c{}", i), 0, &db, &dbs); chk(&mut v, "C13.set-arbiter", is_err(&r)); }
+    chk(&mut v, "C13.keep-old", db.get_value("k".into()).map_or(false, |e| e.value == "v1" && e.version == MARK));
+    let notices = drain(&mut arx);
+    chk(&mut v, "C13.deliver", notices.len() == nconf);
+    // the arbiter answers each notice echoing its op id and version:  resolve <opp_id> <db> <version> <key> <old> <new>
+    let parsed: Vec<(u64, i32, String)> = notices.iter().map(|n| { let f: Vec<&str> = n.split(' ').collect(); (f[1].parse().unwrap(), f[3].parse().unwrap(), f[6..].join(" ")) }).collect();
+    for (step, idx) in order.iter().enumerate() {
+        if *idx >= parsed.len() { continue; }
+        let (opp_id, version, value) = parsed[*idx].clone();
+        let mut ch = Change::new("k".into(), value.clone(), version);
+        ch.opp_id = opp_id;
+        let _ = db.resolve_conflit(ch, &dbs);
+        let remaining = order.len() - step - 1;
+        let e = db.get_value("k".into()).unwrap();
+        if remaining > 0 {
+            // something is still pending: the key must stay in conflict (later writes keep queueing)
+            chk(&mut v, "C13.writable-again", e.version == MARK);
+        } else {
+            chk(&mut v, "C13.writable-again", e.version != MARK && e.value == value);
+            chk(&mut v, "C13.resolved-value", e.value == value);
+        }
+    }
+    Ok(v)
+}
+fn all_arbiter_scenarios() -> Vec<String> {
+    vec!["1|0", "2|01", "2|10", "3|012", "3|021", "3|102", "3|120", "3|201", "3|210"].into_iter().map(|x| x.to_string()).collect()
+}
+
 fn families() -> Vec<(&'static str, fn() -> Vec<String>, fn(&str) -> Result<Violations, String>)> {
     vec![("store", all_store_scenarios, scenario_store), ("strategy", all_strategy_scenarios, scenario_strategy),
          ("pending", all_pending_scenarios, scenario_pending), ("ids", all_ids_scenarios, scenario_ids),
-         ("oplog", all_oplog_scenarios, scenario_oplog)]
+         ("oplog", all_oplog_scenarios, scenario_oplog), ("session", all_session_scenarios, scenario_session),
+         ("arbiter", all_arbiter_scenarios, scenario_arbiter)]
 }
 
 fn main() {
@@ -426,6 +604,27 @@ fn main() {
                 }
             }
             std::process::exit(2);
+        }
+        "sweep" => {
+            // bounded stand-in: every scenario of every family; report the labels of property <label> that some scenario violates
+            let prefix = format!("{}.", label);
+            let mut n = 0usize; let mut nontrivial = 0usize;
+            let mut first: Vec<(String, String)> = vec![];
+            let mut per_family: Vec<(String, usize)> = vec![];
+            for (fam, gen, run) in families() {
+                let scs = gen();
+                per_family.push((fam.to_string(), scs.len()));
+                for sc in scs {
+                    n += 1;
+                    if let Ok(v) = run(&sc) {
+                        nontrivial += 1;
+                        for l in v { if (l.starts_with(&prefix) || (label == "C10" && l == "C10.safety")) && !first.iter().any(|(x, _)| *x == l) { first.push((l, format!("{}:{}", fam, sc))); } }
+                    }
+                }
+            }
+            let fams: Vec<String> = per_family.iter().map(|(f, c)| format!("\"{}\":{}", f, c)).collect();
+            let viol: Vec<String> = first.iter().map(|(l, s)| format!("{{\"label\":\"{}\",\"scenario\":\"{}\"}}", l, s.replace('\\', "\\\\").replace('"', "\\\""))).collect();
+            println!("{{\"scenarios\":{},\"executed\":{},\"families\":{{{}}},\"violations\":[{}]}}", n, nontrivial, fams.join(","), viol.join(","));
         }
         "selftest" => {
             // on a correct tree no scenario violates anything
